@@ -275,7 +275,7 @@ def run(check, tier, seed, jobs=None, replay=None, only=None, extra_env=None, ke
         "wall_s": round(wall, 2),
         "violations": len(new_viol),
     }
-    if not only:
+    if not only and not os.environ.get("VMON_NO_EVIDENCE"):
         os.makedirs(os.path.join(env.VERIF, "evidence"), exist_ok=True)
         with open(os.path.join(env.VERIF, "evidence", "%s.json" % prop), "w") as f:
             json.dump(evidence, f, indent=1, sort_keys=True, default=repr)
